@@ -73,8 +73,11 @@ VIns(v, p) == IF Len(p) < M THEN v
 VPrune(v, p, f, s) ==
    IF Len(p) < M \/ p \in Real(f, s) \/ VKey(p) \notin DOMAIN v THEN v
    ELSE LET k == VKey(p)  nm == v[k].names \ {p}
-        IN IF nm = {} /\ Len(p) = v[k].md THEN Drop(v, {k})
-           ELSE Ext(v, k, [md |-> v[k].md, names |-> nm])
+        IN IF nm = {} THEN Drop(v, {k})
+           \* the longest name went away: md drops to the longest remaining one (shipped code: deviation MdNeverShrinks,
+           \* which also leaves the virtual entry behind when the last, shorter, name is pruned later)
+           ELSE Ext(v, k, [md |-> (IF Len(p) = v[k].md /\ "MdNeverShrinks" \notin Dev THEN MaxS({ Len(q) : q \in nm }) ELSE v[k].md),
+                           names |-> nm])
 \* findLongestPrefixMatch + the walk down to an entry that has next hops, exactly as the code probes
 HashLpm(f, s, v, n) ==
    LET R == Real(f, s)
@@ -158,6 +161,6 @@ RootHasStrategy == <<>> \in DOMAIN st
 RibTight == tn = PruneAll(tn, routes)
 VirtTight == \A k \in DOMAIN vmd : /\ vmd[k].names = { p \in Real(nh, st) : Len(p) >= M /\ VKey(p) = k }
                                    /\ vmd[k].names # {}
-                                   /\ \A p \in vmd[k].names : Len(p) <= vmd[k].md
+                                   /\ vmd[k].md = MaxS({ Len(p) : p \in vmd[k].names })
 VirtComplete == \A p \in Real(nh, st) : Len(p) >= M => VKey(p) \in DOMAIN vmd /\ p \in vmd[VKey(p)].names
 =============================================================================
